@@ -506,6 +506,9 @@ func (fr *Frame) callSiteChecks(st *State, cc *ssa.CallCommon, args []Term, in s
 		switch callee := cc.Value.(type) {
 		case *ssa.Function:
 			name = callee.Name()
+			if o := callee.Origin(); o != nil {
+				name = o.Name() // an instance of a generic function is addressed by the function's name
+			}
 			sig = callee.Signature
 			if sig.Recv() != nil {
 				recvT = sig.Recv().Type()
